@@ -217,7 +217,7 @@ def step (line : String) : String :=
     match fromHex p, fromHex n with
     | some p, some n =>
       let ci := ci == "1"
-      s!"R {optStr (matchglobStack false p n ci)} F {optStr (matchglobStack true p n ci)} | dfs={boolStr (matchglob p n ci)} fdfs={boolStr (matchglobFixed p n ci)} spec={boolStr (Cppcheck.Glob.Spec.matchesB (cstr p) (cstr n))} ok={boolStr (starOk (cstr p))}"
+      s!"R {optStr (matchglobStack fixApplied p n ci)} F {optStr (matchglobStack true p n ci)} P {optStr (matchglobStack false p n ci)} | dfs={boolStr (matchglob p n ci)} fdfs={boolStr (matchglobFixed p n ci)} pdfs={boolStr (matchglobPre p n ci)} spec={boolStr (Cppcheck.Glob.Spec.matchesB (cstr p) (cstr n))} ok={boolStr (starOk (cstr p))} sw={boolStr fixApplied}"
     | _, _ => "bad-op"
   | ["vg", p] =>
     match fromHex p with
@@ -247,7 +247,7 @@ def step (line : String) : String :=
               let (bits, l') := runMsgs env (g == "1") ms l []
               let spec := ms.map fun (x : Bool × Msg) => boolStr (l.any fun s => Spec.active (g == "1") x.2 s && Spec.matchesB env s x.2)
               let exact := l.all fun s => globExact s.errorId && globExact s.symbolName
-              s!"A {",".intercalate adds} R {if bits.isEmpty then "_" else "".intercalate bits} F {flagsStr l'} | spec={if spec.isEmpty then "_" else "".intercalate spec} exact={boolStr exact}"
+              s!"A {if adds.isEmpty then "_" else ",".intercalate adds} R {if bits.isEmpty then "_" else "".intercalate bits} F {flagsStr l'} | spec={if spec.isEmpty then "_" else "".intercalate spec} exact={boolStr exact}"
           | _ => "bad-op"
         | none => "bad-op"
       | _ => "bad-op"
@@ -322,7 +322,7 @@ def step (line : String) : String :=
                   let outs := st.out.map fun o => s!"{indexOfFinding fsx o.f}:{boolStr o.asInternal}:{toHex o.remark}"
                   let uns := ms.map fun m => boolStr (!(nomsg.any fun s => Spec.active cfg.useGlobal m s && Spec.matchesB env s m))
                   let exact := nomsg.all fun s => globExact s.errorId && globExact s.symbolName
-                  s!"A {",".intercalate (a1 ++ a2)} O {if outs.isEmpty then "_" else ",".intercalate outs} X {st.exitCode} N {flagsStr st.nomsg} M {flagsStr st.nofail} | unsup={if uns.isEmpty then "_" else "".intercalate uns} exact={boolStr exact}"
+                  s!"A {if (a1 ++ a2).isEmpty then "_" else ",".intercalate (a1 ++ a2)} O {if outs.isEmpty then "_" else ",".intercalate outs} X {st.exitCode} N {flagsStr st.nomsg} M {flagsStr st.nofail} | unsup={if uns.isEmpty then "_" else "".intercalate uns} exact={boolStr exact}"
               | _ => "bad-op"
             | none => "bad-op"
           | _ => "bad-op"
